@@ -150,7 +150,7 @@ func (p *goPrinter) expr(e Expr) string {
 				if len(x.Args) == 1 {
 					return "len(" + p.expr(x.Args[0]) + ")"
 				}
-			case "old", "fresh", "iface", "deref", "dom", "vals":
+			case "old", "fresh", "disjoint", "iface", "deref", "dom", "vals":
 				return p.fail("%s(...) has no replay", id.Name)
 			}
 		}
